@@ -28,6 +28,7 @@ S = Suite("C05")
 MET = "graphiq.backends.stabilizer.functions.metric"
 STB = "graphiq.backends.stabilizer.functions.stabilizer"
 TOL = 1e-9
+FIXED_STREAM = [0, 5, 99]
 
 
 def _g():
@@ -95,8 +96,8 @@ for _nm, _bound, _ex in (
     ("fidelity.value.n3_sampled", "seeded random ordered pairs of the 1080 three-qubit states x random ordered generating set (of 168) x random destabilizers", False),
     ("fidelity.value.n4_sampled", "seeded random pairs of random 4-qubit Clifford tableaux (random circuits + random change of presentation); "
      "half of the pairs are related by <= 3 gates so that non-zero overlaps occur", False),
-    ("fidelity.value.n5_to_8_sampled", "seeded random pairs of random 5-8 qubit Clifford tableaux, same construction (quick: 150 pairs; thorough: "
-     "the same 150 + 450 more); own random stream, so the inputs depend on the seed only", False),
+    ("fidelity.value.n5_to_8_sampled", "FIXED sample (seed-independent, because it touches known finding inverse_circuit-n>=5) of pairs of random "
+     "5-8 qubit Clifford tableaux, same construction: quick 150 pairs; thorough the same 150 + 450 more", False),
 ):
     S.item(_nm, site=f"{MET}:fidelity", bound=_bound, exhaustive=_ex,
            clause="the stabilizer fidelity equals |<a|b>|^2 for all pairs, in any generating sets and destabilizers")(value_case)
@@ -352,7 +353,8 @@ def run(tier, seed):
     for _ in range(3000 if thorough else 400):
         big.append(_near_pair(4, rng) if rng.random() < 0.5 else _rand_tab(4, rng) + _rand_tab(4, rng))
     S.map("fidelity.value.n4_sampled", big)
-    rng_l = np.random.default_rng([seed, 5, 99])  # own stream: the quick list is a prefix of the thorough list
+    # n >= 5 touches the known finding "inverse_circuit n>=5": FIXED stream (seed-independent; quick list = prefix of thorough list)
+    rng_l = np.random.default_rng(FIXED_STREAM)
     large = []
     for _ in range(600 if thorough else 150):
         n = int(rng_l.integers(5, 9))
